@@ -357,6 +357,7 @@ func NewWorld(p Profile) *World {
 	var st interface{} = w.Store
 	if p.Tx {
 		w.Tx = &TxStore{ProxyStore: w.Store}
+		w.Store.tx = w.Tx
 		st = w.Tx
 	}
 	idk := p.IDKey
